@@ -125,6 +125,10 @@ def py_agg_prob(comp, T, deg):
         pl = [Fraction(0)] * (max(i["shift"] for i in isos) + 1)
         for i in isos:
             pl[i["shift"]] = Fraction(i["abundance"])
+        # only ratios of coefficients are used: with the constant term scaled to 1 the numbers stay small (a0^n has
+        # tens of thousands of digits for a polymer)
+        if pl[0] != 0:
+            pl = [x / pl[0] for x in pl]
         acc = mul(acc, power(pl, n))
     return acc + [Fraction(0)] * (deg + 1 - len(acc))
 
@@ -161,6 +165,9 @@ def py_agg_mass(comp, T, deg):
         for i in isos:
             pl[i["shift"]] = Fraction(i["abundance"])
             ml[i["shift"]] = Fraction(i["abundance"]) * Fraction(i["mass"])
+        if pl[0] != 0:
+            a0 = pl[0]           # the common factor a0^n cancels in massw[j] / prob[j]
+            pl, ml = [x / a0 for x in pl], [x / a0 for x in ml]
         return pl, ml
     parts = [(n, *polys(s)) for s, n in comp if n > 0]
     full = [power(pl, n) for n, pl, _ in parts]
